@@ -1094,43 +1094,47 @@ err:
 static int
 _bucket_clear(Bucket *self)
 {
+    /* Detach everything from the bucket before releasing any of it:
+     * releasing a key, a value or the next bucket can run arbitrary code
+     * (finalizers), which must find a consistent, empty bucket.
+     */
     const int len = self->len;
+    KEY_TYPE *keys = self->keys;
+    VALUE_TYPE *values = self->values;
+    Bucket *next = self->next;
     /* Don't declare i at this level.  If neither keys nor values are
      * PyObject*, i won't be referenced, and you'll get a nuisance compiler
      * wng for declaring it here.
      */
     self->len = self->size = 0;
+    self->keys = NULL;
+    self->values = NULL;
+    self->next = NULL;
 
-    if (self->next)
-    {
-        Py_DECREF(self->next);
-        self->next = NULL;
-    }
+    Py_XDECREF(next);
 
     /* Silence compiler warning about unused variable len for the case
         when neither key nor value is an object, i.e. II. */
     (void)len;
 
-    if (self->keys)
+    if (keys)
     {
 #ifdef KEY_TYPE_IS_PYOBJECT
         int i;
         for (i = 0; i < len; ++i)
-            DECREF_KEY(self->keys[i]);
+            DECREF_KEY(keys[i]);
 #endif
-        free(self->keys);
-        self->keys = NULL;
+        free(keys);
     }
 
-    if (self->values)
+    if (values)
     {
 #ifdef VALUE_TYPE_IS_PYOBJECT
         int i;
         for (i = 0; i < len; ++i)
-            DECREF_VALUE(self->values[i]);
+            DECREF_VALUE(values[i]);
 #endif
-        free(self->values);
-        self->values = NULL;
+        free(values);
     }
     return 0;
 }
